@@ -1,10 +1,16 @@
 """C10 - symbolic parameters behave exactly like the values they stand for.
 
   substitution   a program whose parameters are expression trees over free parameters runs (args=...) to the same state as its
-                 numerically substituted twin (refsim of the harness-evaluated expressions), through every compile target,
-                 decomposition and optimisation; compile-then-bind == bind-then-compile
+                 numerically substituted twin (refsim of the harness-evaluated expressions), through every compile target (engine default,
+                 gaussian, bosonic, fock, gaussian_unitary, passive), decomposition and optimisation; compile-then-bind == bind-then-compile;
+                 the SAME program bound again to other values is the circuit with the new values; array-valued parameters (object arrays,
+                 elementwise sf.math functions); neighbouring same-family operations with symbolic parameters (what merge sees: symbolic sum,
+                 exact cancellation, first parameters cancel but the others differ); an explicit FreeParameter.default; hbar in {2, 1, 0.5, 1.7}
   measured       gates parameterised by (expressions of) measured values: with select fixing the outcomes the applied gate uses the
-                 MOST RECENT outcome of the mode (measure -> use -> re-prepare -> re-measure -> use); use before measurement raises
+                 MOST RECENT outcome of the mode (measure -> use -> re-prepare -> re-measure -> use); use before measurement raises.
+                 Outcomes are real (homodyne) or complex (heterodyne: re, im, Abs, arg); measured and free parameters mixed in one
+                 expression; the measurement angle itself symbolic (adaptive measurement); array-valued; registers with two-digit names;
+                 1..3 program segments on one engine, as separate run calls or as ONE list; after Engine.reset the outcomes are gone
   errors         unbound parameters, unknown names: ParameterError, never a silent default or a value leaked from another program
   isolation      creating / binding / running program B must not change program A (finding F7: symbols are cached by name)
 """
@@ -20,17 +26,31 @@ from vf.core import Sub
 
 RULE = ("programs of 1..3 modes, 1..6 commands over every parameterised Gaussian operation family with .H; each real parameter is, with "
         "probability 1/2, an expression tree (sum, product, negation, sin, cos, exp, sqrt, Abs, atan2) over free parameters a, b, c and "
-        "constants; compile targets {engine default, gaussian, bosonic, fock, gaussian_unitary (bound first)} x optimize; measured-parameter "
-        "histories of measure/use/re-prepare/re-measure; non-trivial = an expression with >= 1 symbol and >= 1 arithmetic node whose value is not 0")
+        "constants; optionally a pair of neighbouring same-family single-mode operations with symbolic parameters (same other parameters / exact "
+        "cancellation / cancelling first parameters with different other parameters / mixed dagger), a Gaussian(V, r) whose vector of means is "
+        "an array-valued symbolic parameter, an explicit FreeParameter.default (bound or not), a second binding of the same program object; "
+        "compile targets {engine default, gaussian, bosonic, fock, gaussian_unitary and passive (bound first)} x optimize; hbar in {2, 1, 0.5, 1.7}; "
+        "measured-parameter histories of measure/use/re-prepare/re-measure over homodyne (real) and heterodyne (complex: re, im, Abs, arg) outcomes, "
+        "free and measured symbols in one expression, symbolic measurement angles, registers of 2, 3 or 12 modes, 1..3 segments run call by call or "
+        "as one list, Engine.reset followed by the last segment; non-trivial = an expression with >= 1 symbol and >= 1 arithmetic node whose value is not 0")
 ASSUMPTIONS = [
     "expression trees are evaluated by the harness with plain Python/numpy (never by sympy) for the numeric twin",
     "states compared with refsim at 1e-7 (1e-5 with post-selected homodyne); compile targets that reject a program (CircuitError) are skipped",
-    "array-valued (batched) parameters and TensorFlow tensors are not exercised (tensorflow is not installed)",
+    "array-valued parameters are exercised as numpy object arrays (vector of means of Gaussian(V, r), elementwise sf.math functions); batched "
+    "parameters and TensorFlow tensors are not (tensorflow is not installed); non-Gaussian operations (Kgate, Vgate, CKgate, Catstate, MSgate) are "
+    "not exercised: their parameters go through the same par_evaluate call as the Gaussian families",
     "F7 (open): free/measured parameter symbols are cached by name across Programs; the substitution and measured sub-checks keep exactly one "
-    "symbolic program alive at a time so that they test what the property states rather than F7",
+    "symbolic program alive at a time so that they test what the property states rather than F7 (multi-segment cases: feed-forward only in the "
+    "last segment, free parameters only in single-segment cases)",
+    "Engine.reset: 'All registers of previously run Programs are cleared of measured values' (docstring): a segment that uses an outcome measured "
+    "before the reset and not since must raise ParameterError when it is run alone afterwards",
+    "FreeParameter.default is the documented 'default value of the parameter, used if unbound': an explicitly set default is not a silent default",
+    "sf.hbar is switched per case (restored afterwards); select values, measured values and the vector of means are in units of the current hbar",
 ]
 REQUIRED_LABELS = {"all": ["free", "measured", "decomposed_symbolic", "optimised_symbolic", "remeasure", "use_before_measure", "unbound", "unknown_name",
-                           "target:gaussian_unitary", "target:bosonic", "fn:atan2", "two_segments", "optimised_measured", "multi_mode_measurement", "error_then_rerun_dagger"]}
+                           "target:gaussian_unitary", "target:bosonic", "fn:atan2", "two_segments", "optimised_measured", "multi_mode_measurement", "error_then_rerun_dagger",
+                           "rebind", "symbolic_merge_pair_optimised", "array_valued", "hbar_not_2", "target:passive", "mixed_free_measured", "heterodyne_complex",
+                           "symbolic_measurement_angle", "three_segments", "program_list"]}
 
 FAMS = ["Dgate", "Sgate", "Rgate", "BSgate", "S2gate", "MZgate", "Xgate", "Zgate", "Pgate", "CXgate", "CZgate", "LossChannel", "ThermalLossChannel",
         "Coherent", "Squeezed", "DisplacedSqueezed", "Thermal", "sMZgate"]
@@ -67,7 +87,64 @@ def evaluate(ast, env):
     if k == "fn2":
         # sympy does not distinguish -0.0 from 0.0 (atan2(-0.0, -1) = pi there, -pi in IEEE arithmetic): normalise the sign of zero
         return math.atan2(evaluate(ast[2], env) + 0.0, evaluate(ast[3], env) + 0.0)
+    if k == "cfn":
+        # real-valued function of a COMPLEX measured value (heterodyne outcome): ["cfn", "re"|"im"|"Abs"|"arg", ["meas", m]]
+        z = env["q%d" % ast[2][1]]
+        z = complex(z["re"], z["im"]) if isinstance(z, dict) else complex(z)
+        return {"re": z.real, "im": z.imag, "Abs": abs(z), "arg": math.atan2(z.imag, z.real)}[ast[1]]
     raise ValueError(ast)
+
+
+# array-valued parameters: ["vec", [e0, e1, ..]] | ["vscale", scalar_ast, V] | ["vadd", V, W] | ["vfn", name, V].  The harness evaluates them
+# element by element through the scalar evaluator; the program builds them with numpy/sympy array arithmetic (object arrays) and the
+# elementwise sf.math wrappers
+VEC_KINDS = ("vec", "vscale", "vadd", "vfn")
+
+
+def is_vec(p):
+    return isinstance(p, list) and len(p) > 0 and p[0] in VEC_KINDS
+
+
+def vec_elems(v):
+    """the scalar expression tree of every element"""
+    k = v[0]
+    if k == "vec":
+        return list(v[1])
+    if k == "vscale":
+        return [["mul", v[1], e] for e in vec_elems(v[2])]
+    if k == "vadd":
+        return [["add", a, b] for a, b in zip(vec_elems(v[1]), vec_elems(v[2]))]
+    if k == "vfn":
+        return [["fn", v[1], e] for e in vec_elems(v[2])]
+    raise ValueError(v)
+
+
+def vec_sympy(v, prog, q):
+    import strawberryfields as sf
+
+    k = v[0]
+    if k == "vec":
+        return np.array([to_sympy(e, prog, q) for e in v[1]])  # dtype object as soon as one element is symbolic
+    if k == "vscale":
+        return to_sympy(v[1], prog, q) * vec_sympy(v[2], prog, q)
+    if k == "vadd":
+        return vec_sympy(v[1], prog, q) + vec_sympy(v[2], prog, q)
+    if k == "vfn":
+        return getattr(sf.math, v[1])(vec_sympy(v[2], prog, q))
+    raise ValueError(v)
+
+
+def gauss_cov(gv, hbar):
+    """covariance (x.., p.. order, units of hbar) of a mixed Gaussian state of len(gv["nb"]) modes built by refsim: thermal states, one squeezer
+    per mode and (two modes) a beamsplitter"""
+    k = len(gv["nb"])
+    ref = refsim.Ref(k, hbar)
+    for i in range(k):
+        ref.apply("Thermal", [gv["nb"][i]], [i])
+        ref.apply("Sgate", [gv["r"][i], gv["th"][i]], [i])
+    if k == 2:
+        ref.apply("BSgate", list(gv["bs"]), [0, 1])
+    return np.array(ref.V)
 
 
 def to_sympy(ast, prog, q):
@@ -93,23 +170,31 @@ def to_sympy(ast, prog, q):
         return getattr(sf.math, ast[1])(x)
     if k == "fn2":
         return sf.math.atan2(to_sympy(ast[2], prog, q), to_sympy(ast[3], prog, q))
+    if k == "cfn":
+        return getattr(sf.math, ast[1])(q[ast[2][1]].par)
     raise ValueError(ast)
 
 
 def symbols_of(ast):
     if not isinstance(ast, list):
         return set()
-    if ast[0] in ("free",):
+    if len(ast) == 2 and ast[0] == "free":
         return {ast[1]}
-    if ast[0] == "meas":
+    if len(ast) == 2 and ast[0] == "meas":
         return {"q%d" % ast[1]}
-    return set().union(*[symbols_of(x) for x in ast[1:] if isinstance(x, list)]) if any(isinstance(x, list) for x in ast[1:]) else set()
+    out = set()
+    for x in ast:
+        out |= symbols_of(x)
+    return out
 
 
 def live_symbols(ast):
     """symbols the expression really depends on after algebraic simplification (q0 * 0.0 or q0 - q0 do not depend on q0):
     decided with plain sympy symbols on the harness side, never with the repo's parameter classes"""
     import sympy
+
+    if is_vec(ast):
+        return set().union(*[live_symbols(e) for e in vec_elems(ast)] or [set()])
 
     def conv(a):
         if not isinstance(a, list):
@@ -128,6 +213,8 @@ def live_symbols(ast):
         if k == "fn":
             x = conv(a[2])
             return sympy.sqrt(sympy.Abs(x)) if a[1] == "sqrt" else getattr(sympy, a[1])(x)
+        if k == "cfn":
+            return getattr(sympy, a[1])(sympy.Symbol("q%d" % a[2][1]))  # a complex symbol
         return sympy.atan2(conv(a[2]), conv(a[3]))
 
     return {str(x).replace("free_", "") for x in conv(ast).free_symbols}
@@ -140,8 +227,8 @@ def has_arith(ast):
 def fns_of(ast):
     if not isinstance(ast, list):
         return set()
-    out = {ast[1]} if ast[0] in ("fn", "fn2") else set()
-    for x in ast[1:]:
+    out = {ast[1]} if ast[0] in ("fn", "fn2", "cfn", "vfn") and isinstance(ast[1], str) else set()
+    for x in ast:
         out |= fns_of(x)
     return out
 
@@ -162,43 +249,159 @@ def expr(draw, leaves, depth=2):
     return ["fn2", "atan2", draw(expr(leaves, depth - 1)), draw(gen.fl(0.2, 1.0))]
 
 
-def fit(ast, name, pos, env, energy_cap):
-    """wrap the expression so that its value lies in the operation's accepted domain (same wrapping on both sides)"""
+def fit(ast, name, pos, envs, energy_cap):
+    """wrap the expression so that its value lies in the operation's accepted domain (same wrapping on both sides), for every binding
+    the case is going to use"""
     if (name, pos) in NONNEG:
         ast = ["fn", "Abs", ast]
     if name in ("LossChannel", "ThermalLossChannel") and pos == 0:
         ast = ["fn", "Abs", ["fn", "cos", ast]]  # in [0, 1]
     else:
-        v = evaluate(ast, env)
-        if abs(v) > energy_cap:
-            ast = ["mul", energy_cap / (abs(v) + 1e-9), ast]
+        v = max(abs(evaluate(ast, e)) for e in envs)
+        if v > energy_cap:
+            ast = ["mul", energy_cap / (v + 1e-9), ast]
     return ast
 
 
 # ---------------------------------------------------------------------------------------------
 # substitution
 # ---------------------------------------------------------------------------------------------
+SQUEEZE_LIKE = ("Sgate", "S2gate", "Squeezed", "Pgate", "CXgate", "CZgate")
+PAIR_FAMS = ["Dgate", "Sgate", "Rgate", "Dgate", "Xgate", "Sgate", "Zgate", "Pgate", "LossChannel", "ThermalLossChannel"]  # single-mode, mergeable
+HBARS = [2.0, 2.0, 2.0, 1.0, 0.5, 1.7]
+PASSIVE_FAMS = ["BSgate", "Rgate", "MZgate", "sMZgate", "LossChannel"]
+
+
+def _cap(name, j):
+    return 0.8 if name in SQUEEZE_LIKE or (name == "DisplacedSqueezed" and j == 2) else 3.0
+
+
+@st.composite
+def merge_pair(draw, n, leaves, envs):
+    """two neighbouring single-mode operations of ONE family on ONE mode with symbolic parameters: what Gate.merge / Channel.merge see when
+    the circuit is optimised.  kinds: same_tail (other parameters identical -> merged into one operation with a symbolic sum / product),
+    cancel (same expression, opposite dagger -> the identity), tail_differs (first parameters cancel but the other parameters differ:
+    must not be merged), dagger_mixed (different expressions, opposite dagger)"""
+    fam = draw(st.sampled_from(PAIR_FAMS))
+    m = draw(st.integers(0, n - 1))
+    gate = fam not in ("LossChannel", "ThermalLossChannel")
+    kind = draw(st.sampled_from(["tail_differs", "cancel", "same_tail", "dagger_mixed"] if gate else ["same_tail"]))
+    two = fam in ("Dgate", "Sgate", "ThermalLossChannel")
+    if not two and kind == "tail_differs":
+        kind = "cancel"
+
+    def first():
+        e = draw(expr(leaves))
+        if not symbols_of(e):
+            e = ["add", e, draw(st.sampled_from(leaves))]
+        return fit(e, fam, 0, envs, 0.5 * _cap(fam, 0))
+
+    def tail():
+        if not two:
+            return []
+        t = draw(st.one_of(gen.fl(0.1, 1.0), expr(leaves, 1)))
+        return [fit(t, fam, 1, envs, 2.0) if isinstance(t, list) else t]
+
+    e1, t1 = first(), tail()
+    e2 = e1 if kind in ("cancel", "tail_differs") else first()
+    t2 = t1
+    if kind == "tail_differs":
+        t2 = [["add", t1[0], 0.25]] if isinstance(t1[0], list) else [t1[0] + 0.25]
+    h1 = gate and draw(st.booleans())
+    h2 = (not h1) if kind in ("cancel", "tail_differs", "dagger_mixed") else h1
+    return kind, [[fam, [e1] + t1, [m], {"H": True} if h1 else {}], [fam, [e2] + list(t2), [m], {"H": True} if h2 else {}]]
+
+
+@st.composite
+def gaussian_array_op(draw, n, leaves):
+    """Gaussian(V, r) on 1..2 modes (any listed order) whose vector of means r is an array-valued symbolic parameter"""
+    k = draw(st.integers(1, min(2, n)))
+    modes = list(draw(st.permutations(list(range(n))))[:k])
+    gv = {"nb": [draw(gen.fl(0.2, 0.5)), draw(gen.fl(0.6, 1.0))][:k], "r": [draw(gen.fl(-0.4, 0.4)) for _ in range(k)],
+          "th": [draw(gen.fl(-3.0, 3.0)) for _ in range(k)], "bs": [draw(gen.fl(0.1, 1.4)), draw(gen.fl(-3.0, 3.0))]}
+    consts = ["vec", [draw(gen.fl(-1.0, 1.0)) for _ in range(2 * k)]]
+    form = draw(st.sampled_from(["scale", "scale_plus_fn", "elements", "fn_of_numeric"]))
+    s1 = draw(st.sampled_from(leaves))
+    if form == "scale":
+        vec = ["vscale", draw(expr(leaves, 1)) if draw(st.booleans()) else s1, consts]
+    elif form == "scale_plus_fn":
+        vec = ["vadd", ["vscale", s1, consts], ["vfn", draw(st.sampled_from(["sin", "cos", "tanh"])),
+                                                 ["vscale", draw(st.sampled_from(leaves)), ["vec", [draw(gen.fl(-2.0, 2.0)) for _ in range(2 * k)]]]]]
+    elif form == "elements":
+        vec = ["vec", [draw(expr(leaves, 1)) for _ in range(2 * k)]]
+        if not symbols_of(vec):
+            vec[1][0] = s1
+    else:  # an elementwise function of a numeric array (atom-free symbolic elements) plus a symbolic multiple
+        vec = ["vadd", ["vfn", draw(st.sampled_from(["sin", "cos", "exp"])), consts], ["vscale", s1, ["vec", [1.0] + [0.0] * (2 * k - 1)]]]
+    return ["Gaussian", [{"gv": gv}, vec], modes, {"kw": {"decomp": draw(st.booleans())}}]
+
+
 @st.composite
 def sub_case(draw):
     n = draw(st.integers(1, 3))
     env = {"a": draw(gen.fl(-1.0, 1.0)), "b": draw(gen.fl(-1.0, 1.0)), "c": draw(st.sampled_from([0.0, 0.5, -0.7]))}
+    # a second binding of the same program object (same names, other values): the case runs the program again after re-binding
+    rebind = draw(st.sampled_from([None, None, "args", "bind_params"]))
+    env2 = {"a": draw(gen.fl(-1.0, 1.0)), "b": draw(gen.fl(-1.0, 1.0)), "c": draw(st.sampled_from([0.5, 0.0, -0.7]))} if rebind else None
+    # FreeParameter.default ("default value of the parameter, used if unbound"): an explicitly set default stands for the parameter while it
+    # is not bound (bound False), a bound value takes precedence over it (bound True)
+    dflt = draw(st.sampled_from([None, None, None, "a", "b"]))
+    default = {"name": dflt, "value": draw(gen.fl(-1.0, 1.0)), "bound": draw(st.booleans())} if dflt else None
+    envs = [env] + ([env2] if env2 else []) + ([dict(env, **{dflt: default["value"]})] if dflt else [])
     leaves = [["free", "a"], ["free", "b"], ["free", "c"]]
-    ops_ = draw(gen.op_list(n, FAMS, "ps", 1, 6))
+    target = draw(st.sampled_from(["default", "default", "gaussian", "bosonic", "fock", "gaussian_unitary", "passive"]))
+    # the passive target turns a circuit of passive operations into ONE PassiveChannel (it evaluates the parameters: bound first); the
+    # state it acts on is prepared by a numeric first segment run on the same engine
+    prep = draw(gen.op_list(n, ["Coherent", "Squeezed", "DisplacedSqueezed"], "ps", 1, 3)) if target == "passive" else []
+    ops_ = draw(gen.op_list(n, PASSIVE_FAMS if target == "passive" else FAMS, "ps", 1, 6))
     for o in ops_:
         for j, p in enumerate(o[1]):
             if isinstance(p, float) and draw(st.booleans()):
-                cap = 0.8 if o[0] in ("Sgate", "S2gate", "Squeezed", "Pgate", "CXgate", "CZgate") or (o[0] == "DisplacedSqueezed" and j == 2) else 3.0
-                o[1][j] = fit(draw(expr(leaves)), o[0], j, env, cap)
-    target = draw(st.sampled_from(["default", "default", "gaussian", "bosonic", "fock", "gaussian_unitary"]))
-    return {"n": n, "env": env, "ops": ops_, "target": target, "optimize": draw(st.booleans()), "bind_first": draw(st.booleans()),
-            "by_object": draw(st.booleans())}
+                o[1][j] = fit(draw(expr(leaves)), o[0], j, envs, _cap(o[0], j))
+    extra = draw(st.sampled_from([None, None, None, "pair", "pair", "array"])) if target != "passive" else None
+    pair_kind = None
+    if extra == "pair":
+        pair_kind, two = draw(merge_pair(n, leaves, envs))
+        at = draw(st.integers(0, len(ops_)))
+        ops_[at:at] = two
+    elif extra == "array":
+        ops_.insert(draw(st.integers(0, len(ops_))), draw(gaussian_array_op(n, leaves)))
+    optimize = draw(st.booleans())
+    if extra == "pair" and draw(st.integers(0, 3)) > 0:
+        optimize = True  # the pair exists to be merged
+        if target == "gaussian_unitary":
+            target = "gaussian"
+    return {"n": n, "env": env, "ops": ops_, "target": target, "optimize": optimize, "bind_first": draw(st.booleans()),
+            "by_object": draw(st.booleans()), "env2": env2, "rebind": rebind, "pair": pair_kind, "hbar": draw(st.sampled_from(HBARS)), "prep": prep, "default": default}
 
 
-def numeric_twin(ops_, env):
+def num_param(p, env, hbar=2.0):
+    if is_vec(p):
+        return spec.enc_vec([evaluate(e, env) for e in vec_elems(p)])
+    if isinstance(p, list):
+        return evaluate(p, env)
+    if isinstance(p, dict) and "gv" in p:
+        return spec.enc_matrix(gauss_cov(p["gv"], hbar))
+    return p
+
+
+def numeric_twin(ops_, env, hbar=2.0):
     out = []
     for o in ops_:
-        out.append([o[0], [evaluate(p, env) if isinstance(p, list) else p for p in o[1]], o[2], o[3] if len(o) > 3 else {}])
+        out.append([o[0], [num_param(p, env, hbar) for p in o[1]], o[2], o[3] if len(o) > 3 else {}])
     return out
+
+
+def sym_param(p, prog, q):
+    import strawberryfields as sf
+
+    if is_vec(p):
+        return vec_sympy(p, prog, q)
+    if isinstance(p, list):
+        return to_sympy(p, prog, q)
+    if isinstance(p, dict) and "gv" in p:
+        return gauss_cov(p["gv"], sf.hbar)
+    return spec.dec_param(p)
 
 
 def build_symbolic(n, ops_, parent=None):
@@ -208,9 +411,11 @@ def build_symbolic(n, ops_, parent=None):
     prog = sf.Program(n) if parent is None else sf.Program(parent)
     with prog.context as q:
         for o in ops_:
-            ps = [to_sympy(p, prog, q) if isinstance(p, list) else spec.dec_param(p) for p in o[1]]
+            ps = [sym_param(p, prog, q) for p in o[1]]
             flags = o[3] if len(o) > 3 else {}
-            kw = {"select": flags["select"]} if flags.get("select") is not None else {}
+            kw = dict(flags.get("kw", {}))
+            if flags.get("select") is not None:
+                kw["select"] = spec.dec_param(flags["select"])
             op = getattr(ops, o[0])(*ps, **kw)
             if flags.get("H"):
                 op = op.H
@@ -220,18 +425,35 @@ def build_symbolic(n, ops_, parent=None):
 
 
 def check_sub(ctx, case):
+    hbar = float(case.get("hbar", 2.0))
+    with sfrun.HbarCtx(hbar):
+        return _check_sub(ctx, case, hbar)
+
+
+def _check_sub(ctx, case, hbar):
     import warnings
 
     import strawberryfields as sf
     from strawberryfields.program_utils import CircuitError
 
-    n, env, ops_, target = case["n"], case["env"], case["ops"], case["target"]
+    n, env, ops_, target = case["n"], dict(case["env"]), case["ops"], case["target"]
     used = set().union(*[symbols_of(p) for o in ops_ for p in o[1]] or [set()])
-    labels = ["target:" + target] + (["free"] if used else [])
+    labels = ["target:" + target] + (["free"] if used else []) + (["hbar_not_2"] if hbar != 2.0 else [])
+    default = case.get("default") if (case.get("default") or {}).get("name") in used else None
+    unbound = set()
+    if default:
+        labels.append("default_set:" + ("bound" if default["bound"] else "unbound"))
+        if not default["bound"]:
+            unbound = {default["name"]}
+            env[default["name"]] = default["value"]  # what the parameter stands for while it is unbound
     nontriv = False
     for o in ops_:
         for p in o[1]:
-            if isinstance(p, list) and symbols_of(p):
+            if is_vec(p):
+                if symbols_of(p):
+                    labels += ["array_valued"] + ["vfn:" + f for f in fns_of(p)]
+                    nontriv = nontriv or any(abs(evaluate(e, env)) > 1e-9 for e in vec_elems(p))
+            elif isinstance(p, list) and symbols_of(p):
                 labels += ["fn:" + f for f in fns_of(p)]
                 if o[0] in DECOMPOSED:
                     labels.append("decomposed_symbolic")
@@ -239,34 +461,48 @@ def check_sub(ctx, case):
                     nontriv = True
     if case["optimize"] and used:
         labels.append("optimised_symbolic")
-    ref = spec.ref_run(n, numeric_twin(ops_, env), 2.0)
-    bind = {k: env[k] for k in used}
+    if case.get("pair"):
+        labels += ["symbolic_merge_pair", "merge:" + case["pair"]] + (["symbolic_merge_pair_optimised"] if case["optimize"] else [])
+    env2, how = case.get("env2"), case.get("rebind")
+    rebind = bool(env2 and how and used and target not in ("gaussian_unitary", "passive"))  # (these evaluate the numbers when they compile)
+    if rebind:
+        labels += ["rebind", "rebind:" + how]
+    prep = list(case.get("prep") or [])
+    ref = spec.ref_run(n, prep + numeric_twin(ops_, env, hbar), hbar)
+    bind = {k: env[k] for k in used if k not in unbound}
     with warnings.catch_warnings():
         warnings.simplefilter("ignore")
         try:
-            prog = build_symbolic(n, ops_)
+            first = spec.build_program(n, prep) if target == "passive" else None
+            prog = build_symbolic(n, ops_, parent=first)
+            if default:
+                prog.free_params[default["name"]].default = default["value"]
             if case["by_object"]:
                 bind_arg = {prog.free_params[k]: v for k, v in bind.items()}
             else:
                 bind_arg = dict(bind)
-            backend = "gaussian" if target in ("default", "gaussian", "gaussian_unitary", "fock") else "bosonic"
+            backend = "gaussian" if target in ("default", "gaussian", "gaussian_unitary", "fock", "passive") else "bosonic"
             run_prog = prog
             if target != "default":
-                if target == "gaussian_unitary" or case["bind_first"]:
+                if target in ("gaussian_unitary", "passive") or case["bind_first"]:
                     prog.bind_params(bind_arg)
                 run_prog = prog.compile(compiler=target, optimize=case["optimize"])
             eng = sf.Engine(backend)
             np.random.seed(3)
-            if target == "fock":
+            opts = {"optimize": True} if (case["optimize"] and target == "default") else None
+            if target == "passive":
+                eng.run(first)
+                res = eng.run(run_prog)
+                mu, V, _ = sfrun.moments_of(res.state, backend, hbar)
+            elif target == "fock":
                 # the fock target keeps MZgate/S2gate native: run the compiled circuit's specs through refsim instead of a backend
                 run_prog.bind_params(bind_arg) if not case["bind_first"] else None
-                got = spec.ref_run(n, spec.circuit_to_specs(run_prog.circuit), 2.0)
+                got = spec.ref_run(n, spec.circuit_to_specs(run_prog.circuit), hbar)
                 mu, V = got.mu, got.V
             else:
-                opts = {"optimize": True} if (case["optimize"] and target == "default") else None
                 res = eng.run(run_prog, args=bind_arg if not (target != "default" and (target == "gaussian_unitary" or case["bind_first"])) else None,
                               compile_options=opts)
-                mu, V, _ = sfrun.moments_of(res.state, backend, 2.0)
+                mu, V, _ = sfrun.moments_of(res.state, backend, hbar)
         except CircuitError:
             ctx.note(case, False, ["rejected:" + target])
             return None
@@ -277,11 +513,17 @@ def check_sub(ctx, case):
             # the property compares with the numerically substituted circuit: if that one is rejected in the same way (same exception
             # type through the same target), the symbolic program behaved exactly like it (the rejection itself is another property's subject)
             try:
-                twin = spec.build_program(n, numeric_twin(ops_, env))
-                if target != "default":
-                    twin = twin.compile(compiler=target, optimize=case["optimize"])
-                if target != "fock":
-                    sf.Engine(backend).run(twin, compile_options={"optimize": True} if (case["optimize"] and target == "default") else None)
+                if target == "passive":
+                    t1 = spec.build_program(n, prep)
+                    e2 = sf.Engine(backend)
+                    e2.run(t1)
+                    e2.run(build_symbolic(n, numeric_twin(ops_, env, hbar), parent=t1).compile(compiler=target, optimize=case["optimize"]))
+                else:
+                    twin = spec.build_program(n, numeric_twin(ops_, env, hbar))
+                    if target != "default":
+                        twin = twin.compile(compiler=target, optimize=case["optimize"])
+                    if target != "fock":
+                        sf.Engine(backend).run(twin, compile_options={"optimize": True} if (case["optimize"] and target == "default") else None)
                 twin_exc = None
             except Exception as exc2:  # pylint: disable=broad-except
                 twin_exc = exc2
@@ -289,15 +531,40 @@ def check_sub(ctx, case):
                 ctx.note(case, False, labels + ["both_raise:" + type(exc).__name__])
                 return None
             ctx.note(case, True, labels)
-            tiny = any(isinstance(v, float) and 0 < abs(v) < 1e-5 for o in numeric_twin(ops_, env) for v in o[1])
+            tiny = any(isinstance(v, float) and 0 < abs(v) < 1e-5 for o in numeric_twin(ops_, env, hbar) for v in o[1])
             if target == "gaussian_unitary" and isinstance(exc, ValueError) and "not unitary" in str(exc) and tiny:
                 # C17 finding N3: bloch_messiah on a symplectic matrix with a squeezing of ~1e-9 is numerically chaotic
                 return ctx.fail("bloch_messiah.near_degenerate_cluster_split_by_rounding", "gaussian_unitary output with a nearly vanishing squeezing cannot be decomposed: " + str(exc)[:60])
             return ctx.crash(exc, "symbolic." + target)
-    ctx.note(case, nontrivial=nontriv, labels=labels)
-    d = max(float(np.max(np.abs(mu - ref.mu))), float(np.max(np.abs(V - ref.V))))
-    if d > 1e-7 * (1 + float(np.max(np.abs(ref.V)))):
-        return ctx.fail("substitution.state_differs.%s%s" % (target, ".optimize" if case["optimize"] else ""), "symbolic program (bound %s) differs from its numerically substituted twin by %.3g" % (bind, d))
+        ctx.note(case, nontrivial=nontriv, labels=labels)
+        d = max(float(np.max(np.abs(mu - ref.mu))), float(np.max(np.abs(V - ref.V))))
+        if d > 1e-7 * (1 + float(np.max(np.abs(ref.V)))):
+            return ctx.fail("substitution.state_differs.%s%s" % (target, ".optimize" if case["optimize"] else ""), "symbolic program (bound %s, hbar %g) differs from its numerically substituted twin by %.3g" % (bind, hbar, d))
+        if not rebind:
+            return None
+        # the SAME program object (and its compiled copy), bound to other values, is the circuit with those values substituted
+        bind2 = {k: env2[k] for k in used}
+        ref2 = spec.ref_run(n, numeric_twin(ops_, env2, hbar), hbar)
+        try:
+            b2 = {prog.free_params[k]: v for k, v in bind2.items()} if case["by_object"] else dict(bind2)
+            np.random.seed(3)
+            if target == "fock":
+                (run_prog if how == "args" else prog).bind_params(b2)
+                got = spec.ref_run(n, spec.circuit_to_specs(run_prog.circuit), hbar)
+                mu, V = got.mu, got.V
+            else:
+                if how == "args":
+                    res = sf.Engine(backend).run(run_prog, args=b2, compile_options=opts)
+                else:
+                    prog.bind_params(b2)  # through the original program: a compiled copy shares its parameters
+                    res = sf.Engine(backend).run(run_prog, compile_options=opts)
+                mu, V, _ = sfrun.moments_of(res.state, backend, hbar)
+        except Exception as exc:  # pylint: disable=broad-except
+            return ctx.crash(exc, "symbolic.rebind." + target)
+        d = max(float(np.max(np.abs(mu - ref2.mu))), float(np.max(np.abs(V - ref2.V))))
+        if d > 1e-7 * (1 + float(np.max(np.abs(ref2.V)))):
+            d1 = max(float(np.max(np.abs(mu - ref.mu))), float(np.max(np.abs(V - ref.V))))
+            return ctx.fail("substitution.rebind_state_differs.%s" % target, "the program run again after re-binding (%s) %s -> %s differs from the twin with the NEW values by %.3g (from the twin with the old values by %.3g)" % (how, bind, bind2, d, d1))
     return None
 
 
@@ -306,104 +573,193 @@ def check_sub(ctx, case):
 # ---------------------------------------------------------------------------------------------
 @st.composite
 def meas_case(draw):
-    n = draw(st.integers(2, 3))
+    n = draw(st.sampled_from([2, 3, 12, 3, 2]))
+    # 12 modes: two-digit register names (q10, q11 next to q1, q0)
+    mode_st = st.integers(0, n - 1) if n <= 3 else st.sampled_from([10, 1, 11, 0, 2])
     steps = []
-    vals = {}
+    vals = {}  # mode -> kind of its most recent measurement: "hom" (real outcome) | "het" (complex outcome)
     pre = draw(gen.op_list(n, ["Sgate", "BSgate", "Dgate", "Rgate"], "ps", 1, 3))
-    # two-segment variant: the first segment (no feed-forward in it, see F7) measures / re-prepares / re-measures, the second
-    # segment, built with Program(first) and run on the same engine, uses the outcomes
-    two_seg = draw(st.integers(0, 3)) == 0
-    n1 = draw(st.integers(1, 4)) if two_seg else 0
-    cut = None
-    for it in range(n1 + draw(st.integers(1, 5))):
-        if two_seg and it == n1:
-            cut = len(steps)
-        if it < n1:
-            k = draw(st.sampled_from(["measure", "measure", "remeasure", "remeasure", "reprepare", "gate"]))
+    # several segments: the leading segments (no feed-forward in them, see F7) measure / re-prepare / re-measure, the last segment,
+    # built with Program(previous), uses the outcomes.  Three segments: a value measured in the first one has to survive the second
+    nseg = draw(st.sampled_from([1, 1, 1, 1, 1, 2, 2, 3, 3]))
+    lead = [] if nseg == 1 else ([draw(st.integers(1, 4))] if nseg == 2 else [draw(st.integers(1, 3)), draw(st.integers(0, 2))])
+    # free parameters next to measured ones in ONE expression (single program only: a successor program has its own parameters, F7)
+    use_free = nseg == 1 and draw(st.integers(0, 2)) > 0
+    env = {"a": draw(gen.fl(-1.0, 1.0))} if use_free else {}
+
+    def base_leaves(src):
+        if vals.get(src) == "het":
+            return [["cfn", f, ["meas", src]] for f in ("re", "im", "Abs", "arg")]
+        return [["meas", src]]
+
+    def meas_expr(src, depth=1):
+        base = base_leaves(src)
+        e = draw(expr(base + ([["free", "a"]] if use_free else []), depth))
+        if "q%d" % src not in symbols_of(e):
+            e = ["mul", 0.5, draw(st.sampled_from(base))]
+        if use_free and "a" not in symbols_of(e) and draw(st.integers(0, 3)) > 0:
+            e = [draw(st.sampled_from(["add", "mul"])), e, ["free", "a"]]
+        return e
+
+    def measure(m, kind, phi):
+        if kind == "het":
+            z = {"re": draw(st.sampled_from([-1.0, 1.0])) * draw(gen.fl(0.1, 0.6)), "im": draw(st.sampled_from([1.0, -1.0])) * draw(gen.fl(0.1, 0.6))}
+            steps.append(["MeasureHeterodyne", [], [m], {"select": z}])
         else:
-            k = draw(st.sampled_from(["measure", "measure", "remeasure", "use", "use", "use", "use_twice", "reprepare", "gate"]))
-        if k in ("measure", "remeasure"):
-            m = draw(st.sampled_from(sorted(vals))) if k == "remeasure" and vals else draw(st.integers(0, n - 1))
-            v = draw(gen.fl(-0.8, 0.8))
-            steps.append(["MeasureHomodyne", [draw(st.sampled_from([0.0, 0.7]))], [m], {"select": v}])
-            vals[m] = v
-        elif k == "use":
-            srcs = sorted(vals) if vals and draw(st.integers(0, 5)) > 0 else list(range(n))
-            src = draw(st.sampled_from(srcs))
-            tgt = draw(st.sampled_from([j for j in range(n) if j != src] or [src]))
-            fam = draw(st.sampled_from(["Dgate", "Rgate", "Sgate", "Xgate", "Zgate", "BSgate"]))
-            e = draw(expr([["meas", src]], 1))
-            if not symbols_of(e):
-                e = ["mul", 0.5, ["meas", src]]
-            if fam == "Dgate":
-                ps = [["fn", "Abs", e], 0.3]
-            elif fam == "Sgate":
-                ps = [["fn", "tanh", e], 0.2]
-            elif fam == "BSgate":
-                ps = [e, 0.1]
+            steps.append(["MeasureHomodyne", [phi], [m], {"select": draw(gen.fl(-0.8, 0.8))}])
+        vals[m] = kind
+
+    cuts = []
+    for seg in range(nseg):
+        final = seg == nseg - 1
+        if final and not vals and draw(st.integers(0, 3)) > 0:
+            measure(draw(mode_st), draw(st.sampled_from(["hom", "hom", "het"])), draw(st.sampled_from([0.0, 0.7])))  # (else: mostly use before measurement)
+        for _it in range(draw(st.integers(1, 5)) if final else lead[seg]):
+            if not final:
+                k = draw(st.sampled_from(["measure", "measure", "measure_het", "remeasure", "remeasure", "reprepare", "gate"]))
             else:
-                ps = [e]
-            modes = [tgt] if fam != "BSgate" else [tgt, [j for j in range(n) if j != tgt][0]]
-            steps.append([fam, ps, modes, {"H": True} if draw(st.integers(0, 3)) == 0 else {}])
-        elif k == "use_twice":
-            # two neighbouring gates of one family on one mode, both fed by the same measured mode (what an optimiser may try to merge)
-            srcs = sorted(vals) or list(range(n))
-            src = draw(st.sampled_from(srcs))
-            tgt = draw(st.sampled_from([j for j in range(n) if j != src] or [src]))
-            fam = draw(st.sampled_from(["Rgate", "Xgate", "Zgate", "Dgate"]))
-            for _k in range(2):
-                e = draw(expr([["meas", src]], 1))
-                if not symbols_of(e):
-                    e = ["mul", 0.5, ["meas", src]]
-                steps.append([fam, [["fn", "Abs", e], 0.3] if fam == "Dgate" else [e], [tgt], {}])
-        elif k == "reprepare":
-            m = draw(st.integers(0, n - 1))
-            steps.append(["Squeezed", [draw(gen.fl(-0.5, 0.5)), 0.3], [m], {}])
-        else:
-            steps += draw(gen.op_list(n, ["BSgate", "Rgate"], "ps", 1, 1))
+                k = draw(st.sampled_from(["measure", "measure", "measure_het", "measure_sym", "remeasure", "use", "use", "use", "use_twice", "use_array",
+                                          "reprepare", "gate"]))
+            if k in ("measure", "remeasure", "measure_het"):
+                m = draw(st.sampled_from(sorted(vals))) if k == "remeasure" and vals else draw(mode_st)
+                kind = "het" if k == "measure_het" or (k == "remeasure" and draw(st.integers(0, 3)) == 0) else "hom"
+                measure(m, kind, draw(st.sampled_from([0.0, 0.7])))
+            elif k == "measure_sym":
+                # the measurement angle itself is symbolic: a function of an earlier outcome (adaptive measurement) and / or a free parameter
+                m = draw(mode_st)
+                if vals and (not use_free or draw(st.integers(0, 3)) > 0):
+                    phi = meas_expr(draw(st.sampled_from(sorted(vals))))  # may be the previous outcome of mode m itself
+                elif use_free:
+                    phi = draw(expr([["free", "a"]], 1))
+                    phi = phi if symbols_of(phi) else ["add", phi, ["free", "a"]]
+                else:
+                    phi = meas_expr(draw(mode_st))  # nothing measured yet: use before measurement
+                measure(m, "hom", phi)
+            elif k == "use":
+                srcs = sorted(vals) if vals and draw(st.integers(0, 5)) > 0 else (list(range(n)) if n <= 3 else [10, 1, 11, 0, 2])
+                src = draw(st.sampled_from(srcs))
+                tgt = draw(st.sampled_from([j for j in (range(n) if n <= 3 else [11, 0, 10, 1, 3]) if j != src] or [src]))
+                fam = draw(st.sampled_from(["Dgate", "Rgate", "Sgate", "Xgate", "Zgate", "BSgate"]))
+                e = meas_expr(src)
+                if fam == "Dgate":
+                    ps = [["fn", "Abs", e], 0.3]
+                elif fam == "Sgate":
+                    ps = [["fn", "tanh", e], 0.2]
+                elif fam == "BSgate":
+                    ps = [e, 0.1]
+                else:
+                    ps = [e]
+                modes = [tgt] if fam != "BSgate" else [tgt, [j for j in range(n) if j != tgt][0]]
+                steps.append([fam, ps, modes, {"H": True} if draw(st.integers(0, 3)) == 0 else {}])
+            elif k == "use_twice":
+                # two neighbouring gates of one family on one mode, both fed by the same measured mode (what an optimiser may try to merge)
+                srcs = sorted(vals) or list(range(min(n, 3)))
+                src = draw(st.sampled_from(srcs))
+                tgt = draw(st.sampled_from([j for j in range(min(n, 3)) if j != src] or [src]))
+                fam = draw(st.sampled_from(["Rgate", "Xgate", "Zgate", "Dgate"]))
+                for _k in range(2):
+                    e = meas_expr(src)
+                    steps.append([fam, [["fn", "Abs", e], 0.3] if fam == "Dgate" else [e], [tgt], {}])
+            elif k == "use_array":
+                # an array-valued parameter whose elements depend on a measured value: the vector of means of Gaussian(V, r)
+                srcs = sorted(vals) or list(range(min(n, 3)))
+                src = draw(st.sampled_from(srcs))
+                tgt = draw(st.sampled_from([j for j in range(min(n, 3)) if j != src] or [src]))
+                gv = {"nb": [draw(gen.fl(0.2, 1.0))], "r": [draw(gen.fl(-0.4, 0.4))], "th": [draw(gen.fl(-3.0, 3.0))], "bs": [0.0, 0.0]}
+                if draw(st.booleans()):
+                    vec = ["vec", [meas_expr(src), draw(st.one_of(gen.fl(-1.0, 1.0), st.just(["meas", src]))) if vals.get(src) != "het" else ["cfn", "im", ["meas", src]]]]
+                else:
+                    vec = ["vscale", meas_expr(src), ["vec", [draw(gen.fl(-1.0, 1.0)), draw(gen.fl(-1.0, 1.0))]]]
+                steps.append(["Gaussian", [{"gv": gv}, vec], [tgt], {"kw": {"decomp": draw(st.booleans())}}])
+            elif k == "reprepare":
+                m = draw(mode_st)
+                steps.append(["Squeezed", [draw(gen.fl(-0.5, 0.5)), 0.3], [m], {}])
+            else:
+                steps += draw(gen.op_list(n, ["BSgate", "Rgate"], "ps", 1, 1))
+        if not final:
+            cuts.append(len(steps))
     return {"n": n, "pre": pre, "steps": steps, "target": draw(st.sampled_from(["default", "default", "gaussian", "bosonic"])),
-            "optimize": draw(st.sampled_from([None, None, "optimize", "compile"])), "cut": cut}
+            "optimize": draw(st.sampled_from([None, None, "optimize", "compile"])), "cuts": cuts, "form": draw(st.sampled_from(["list", "calls"])),
+            "env": env, "hbar": draw(st.sampled_from(HBARS)), "reset_rerun": draw(st.booleans())}
+
+
+def walk_measured(n, steps, env_free, hbar, vals=None):
+    """oracle: walk the steps substituting the MOST RECENT outcome of every mode (and the free-parameter values); a parameter that (after
+    algebraic simplification) depends on a mode not measured so far ends the walk: early = True.  Returns (numeric steps, early, labels)"""
+    vals = dict(vals or {})
+    nmeas = {}
+    numeric, labels = [], []
+    for o in steps:
+        syms = set().union(*[live_symbols(p) for p in o[1] if isinstance(p, list)] or [set()])
+        qsyms = {s for s in syms if s not in env_free}
+        if any(s not in vals for s in qsyms):
+            return numeric, True, labels
+        if qsyms and any(nmeas.get(int(s[1:]), 0) >= 2 for s in qsyms):
+            labels.append("remeasure")
+        if qsyms and (syms - qsyms):
+            labels.append("mixed_free_measured")
+        if any(int(s[1:]) >= 10 for s in qsyms):
+            labels.append("two_digit_mode")
+        if any(isinstance(p, list) and "cfn" in jflat(p) for p in o[1]) and qsyms:
+            labels.append("heterodyne_complex")
+        if any(is_vec(p) for p in o[1]) and qsyms:
+            labels.append("array_valued_measured")
+        full = dict({"q%d" % j: 0.0 for j in range(n)}, **vals)  # symbols that cancel out may be unmeasured
+        full.update(env_free)
+        numeric.append([o[0], [num_param(p, full, hbar) for p in o[1]], o[2], o[3]])
+        if o[0] in ("MeasureHomodyne", "MeasureHeterodyne"):
+            if syms:
+                labels.append("symbolic_measurement_angle")
+            vals["q%d" % o[2][0]] = o[3]["select"]
+            nmeas[o[2][0]] = nmeas.get(o[2][0], 0) + 1
+    return numeric, False, labels
+
+
+def jflat(x):
+    out = []
+    for y in x:
+        out += jflat(y) if isinstance(y, list) else [y]
+    return out
 
 
 def check_meas(ctx, case):
+    hbar = float(case.get("hbar", 2.0))
+    with sfrun.HbarCtx(hbar):
+        return _check_meas(ctx, case, hbar)
+
+
+def _check_meas(ctx, case, hbar):
     import warnings
 
     import strawberryfields as sf
     from strawberryfields.parameters import ParameterError
 
     n, steps, target = case["n"], case["steps"], case["target"]
-    # oracle: walk the program, substituting the most recent outcome; detect use-before-measure
-    vals = {}
-    numeric = list(case["pre"])
-    early = False
-    nmeas = {}
-    labels = ["measured", "target:" + target]
-    for o in steps:
-        if o[0] == "MeasureHomodyne":
-            vals["q%d" % o[2][0]] = o[3]["select"]
-            nmeas[o[2][0]] = nmeas.get(o[2][0], 0) + 1
-            numeric.append(o)
-            continue
-        syms = set().union(*[live_symbols(p) for p in o[1] if isinstance(p, list)] or [set()])
-        if any(s not in vals for s in syms):
-            early = True
-            break
-        if syms and any(nmeas.get(int(s[1:]), 0) >= 2 for s in syms):
-            labels.append("remeasure")
-        full = dict({"q%d" % j: 0.0 for j in range(n)}, **vals)  # symbols that cancel out may be unmeasured
-        numeric.append([o[0], [evaluate(p, full) if isinstance(p, list) else p for p in o[1]], o[2], o[3]])
+    env_free = dict(case.get("env") or {})
+    numeric_steps, early, wl = walk_measured(n, steps, env_free, hbar)
+    numeric = list(case["pre"]) + numeric_steps
+    labels = ["measured", "target:" + target] + wl + (["hbar_not_2"] if hbar != 2.0 else [])
     if early:
         labels.append("use_before_measure")
+    used_free = sorted(symbols_of(steps) & set(env_free))
+    args = {k: env_free[k] for k in used_free} or None
+    reset_ran = False
     with warnings.catch_warnings():
         warnings.simplefilter("ignore")
         try:
             backend = "bosonic" if target == "bosonic" else "gaussian"
-            cut = case.get("cut")
+            cuts = case.get("cuts")
+            if cuts is None:
+                cuts = [case["cut"]] if case.get("cut") is not None else []  # (replay files written before "cuts" existed)
+            cuts = list(cuts)
             opt = case.get("optimize")
-            if cut is not None and backend == "bosonic":
-                cut = None  # F10 (open): the bosonic engine restarts per program; a single program is run there
-            if cut is not None:
-                labels.append("two_segments")
+            form = case.get("form", "calls")
+            if cuts and backend == "bosonic":
+                cuts = []  # F10 (open): the bosonic engine restarts per program; a single program is run there
+            if cuts:
+                labels += ["two_segments"] if len(cuts) == 1 else ["three_segments"]
+                if form == "list":
+                    labels.append("program_list")
             if opt:
                 labels.append("optimised_measured")
 
@@ -416,12 +772,25 @@ def check_meas(ctx, case):
 
             np.random.seed(3)
             eng = sf.Engine(backend)
-            if cut is None:
-                res = eng.run(prepare(build_symbolic(n, list(case["pre"]) + steps)))
+            bounds = [0] + cuts + [len(steps)]
+            seg_ops = [steps[bounds[i]:bounds[i + 1]] for i in range(len(bounds) - 1)]
+            last = None
+            if not cuts:
+                res = eng.run(prepare(build_symbolic(n, list(case["pre"]) + steps)), args=args)
+            elif form == "list":
+                # every segment is built first (only the last one contains feed-forward) and ONE run call gets the list
+                progs = []
+                for k, so in enumerate(seg_ops):
+                    progs.append(build_symbolic(n, (list(case["pre"]) if k == 0 else []) + so, parent=progs[-1] if progs else None))
+                prepared = [prepare(pr) for pr in progs]
+                last = prepared[-1]
+                res = eng.run(prepared)
             else:
-                p1 = build_symbolic(n, list(case["pre"]) + steps[:cut])
-                eng.run(prepare(p1))
-                res = eng.run(prepare(build_symbolic(n, steps[cut:], parent=p1)))
+                parent = None
+                for k, so in enumerate(seg_ops):
+                    parent = build_symbolic(n, (list(case["pre"]) if k == 0 else []) + so, parent=parent)
+                    last = prepare(parent)
+                    res = eng.run(last)
         except ParameterError as exc:
             ctx.note(case, True, labels)
             if early:
@@ -430,23 +799,50 @@ def check_meas(ctx, case):
         except Exception as exc:  # pylint: disable=broad-except
             ctx.note(case, True, labels)
             return ctx.crash(exc, "measured." + target)
-    ctx.note(case, nontrivial=True, labels=labels)
-    if early:
-        return ctx.fail("measured.used_before_measurement_accepted", "a gate used the measured value of a mode before any measurement of it and the program ran")
-    ref = spec.ref_run(n, numeric, 2.0)
-    mu, V, _ = sfrun.moments_of(res.state, backend, 2.0)
-    d = max(float(np.max(np.abs(mu - ref.mu))), float(np.max(np.abs(V - ref.V))))
-    if d > 2e-5 * (1 + float(np.max(np.abs(ref.V)))):
-        return ctx.fail("measured.state_differs.%s" % target, "program with measured parameters differs from the twin with the most recent outcomes substituted by %.3g" % d)
+        do_reset = bool(cuts) and bool(case.get("reset_rerun")) and not early
+        ctx.note(case, nontrivial=True, labels=labels + (["reset_then_last_segment"] if do_reset else []))
+        if early:
+            return ctx.fail("measured.used_before_measurement_accepted", "a gate used the measured value of a mode before any measurement of it and the program ran")
+        ref = spec.ref_run(n, numeric, hbar)
+        mu, V, _ = sfrun.moments_of(res.state, backend, hbar)
+        d = max(float(np.max(np.abs(mu - ref.mu))), float(np.max(np.abs(V - ref.V))))
+        if d > 2e-5 * (1 + float(np.max(np.abs(ref.V)))):
+            return ctx.fail("measured.state_differs.%s" % target, "program with measured parameters differs from the twin with the most recent outcomes substituted by %.3g (hbar %g)" % (d, hbar))
+        if not do_reset:
+            return None
+        # Engine.reset: "All registers of previously run Programs are cleared of measured values".  The last segment run alone on the reset
+        # engine starts a new computation: outcomes of the earlier computation are not available in it
+        num2, early2, _ = walk_measured(n, seg_ops[-1], env_free, hbar)
+        try:
+            eng.reset()
+            np.random.seed(3)
+            res2 = eng.run(last)
+        except ParameterError as exc:
+            if early2:
+                return None
+            return ctx.fail("measured.reset.parameter_error_on_valid_segment", "after Engine.reset the last segment (which measures everything it uses) raised %s" % str(exc)[:100])
+        except Exception as exc:  # pylint: disable=broad-except
+            return ctx.crash(exc, "measured.reset." + target)
+        if early2:
+            return ctx.fail("measured.reset.stale_measured_value_used", "after Engine.reset the last segment ran although it uses the outcome of a measurement made before the reset (not repeated since)")
+        ref2 = spec.ref_run(n, num2, hbar)
+        mu, V, _ = sfrun.moments_of(res2.state, backend, hbar)
+        d = max(float(np.max(np.abs(mu - ref2.mu))), float(np.max(np.abs(V - ref2.V))))
+        if d > 2e-5 * (1 + float(np.max(np.abs(ref2.V)))):
+            return ctx.fail("measured.reset.state_differs", "last segment run alone after Engine.reset differs from its twin started in the vacuum by %.3g" % d)
     return None
 
 
 # ---------------------------------------------------------------------------------------------
 # error contract
 # ---------------------------------------------------------------------------------------------
+ERR_V = {"nb": [0.4], "r": [0.3], "th": [0.5], "bs": [0.0, 0.0]}
+
+
 @st.composite
 def err_case(draw):
-    return {"kind": draw(st.sampled_from(["unbound", "unknown_name", "unknown_object", "partial"])), "fam": draw(st.sampled_from(["Rgate", "Sgate", "Xgate", "BSgate", "LossChannel", "Dgate"])),
+    return {"kind": draw(st.sampled_from(["unbound", "unknown_name", "unknown_object", "partial", "unknown_name_no_params"])),
+            "fam": draw(st.sampled_from(["MeasureHomodyne", "Gaussian", "Rgate", "Sgate", "Xgate", "BSgate", "LossChannel", "Dgate"])),
             "value": draw(gen.fl(0.1, 0.9)), "compile": draw(st.sampled_from([None, "gaussian", "bosonic"])), "dagger": draw(st.booleans())}
 
 
@@ -459,20 +855,28 @@ def check_err(ctx, case):
 
     kind, fam = case["kind"], case["fam"]
     prog = sf.Program(2)
-    a, b = prog.params("a", "b")
-    dag = bool(case.get("dagger")) and fam != "LossChannel"
+    v = case["value"]
+    noparams = kind == "unknown_name_no_params"  # a program WITHOUT free parameters that is given a value for one
+    a, b = (v, 0.1) if noparams else prog.params("a", "b")
+    dag = bool(case.get("dagger")) and fam not in ("LossChannel", "MeasureHomodyne", "Gaussian")
     with prog.context as q:
         ops.Squeezed(0.3, 0.4) | q[0]
         ops.Coherent(0.5, 0.2) | q[1]
-        op = ops.BSgate(a, b) if fam == "BSgate" else (ops.Dgate(a, 0.3) if fam == "Dgate" else (ops.Sgate(a, 0.3) if fam == "Sgate" else getattr(ops, fam)(a)))
+        if fam == "MeasureHomodyne":
+            op = ops.MeasureHomodyne(a, select=0.2)  # the parameter is a measurement angle
+        elif fam == "Gaussian":
+            op = ops.Gaussian(gauss_cov(ERR_V, 2.0), np.array([1.0, 0.5]) * a)  # the parameter sits inside an array-valued argument
+        else:
+            op = ops.BSgate(a, b) if fam == "BSgate" else (ops.Dgate(a, 0.3) if fam == "Dgate" else (ops.Sgate(a, 0.3) if fam == "Sgate" else getattr(ops, fam)(a)))
         if dag:
             op = op.H
         op | ((q[0], q[1]) if fam == "BSgate" else q[0])
         ops.Rgate(b) | q[1]
-    labels = [("unbound" if kind in ("unbound", "partial") else "unknown_name")] + (["error_then_rerun_dagger"] if dag else [])
+    labels = [("unbound" if kind in ("unbound", "partial") else "unknown_name")] + (["error_then_rerun_dagger"] if dag else []) + (["no_params_program"] if noparams else []) + (
+        ["unbound_in:" + fam] if fam in ("MeasureHomodyne", "Gaussian") and kind in ("unbound", "partial") else [])
     ctx.note(case, nontrivial=True, labels=labels)
-    args = {"unbound": None, "partial": {"a": case["value"]}, "unknown_name": {"a": case["value"], "b": 0.1, "zz": 1.0},
-            "unknown_object": {"a": case["value"], "b": 0.1, FreeParameter("other"): 1.0}}[kind]
+    args = {"unbound": None, "partial": {"b": 0.1} if fam in ("MeasureHomodyne", "Gaussian") else {"a": case["value"]}, "unknown_name": {"a": case["value"], "b": 0.1, "zz": 1.0},
+            "unknown_object": {"a": case["value"], "b": 0.1, FreeParameter("other"): 1.0}, "unknown_name_no_params": {"zz": 1.0}}[kind]
     with warnings.catch_warnings():
         warnings.simplefilter("ignore")
         try:
@@ -482,22 +886,25 @@ def check_err(ctx, case):
             # the refused run must leave the program usable: with every parameter bound it computes what its numeric twin computes
             be = "gaussian" if case["compile"] != "bosonic" else "bosonic"
             try:
-                res2 = sf.Engine(be).run(run_prog, args={"a": case["value"], "b": 0.1})
+                res2 = sf.Engine(be).run(run_prog, args=None if noparams else {"a": case["value"], "b": 0.1})
             except Exception as exc:  # pylint: disable=broad-except
                 return ctx.crash(exc, "errors.rerun_after_parameter_error")
-            v = case["value"]
-            tw = [["Squeezed", [0.3, 0.4], [0], {}], ["Coherent", [0.5, 0.2], [1], {}],
-                  [fam, [v, 0.1] if fam == "BSgate" else ([v, 0.3] if fam in ("Dgate", "Sgate") else [v]), [0, 1] if fam == "BSgate" else [0], {"H": True} if dag else {}],
-                  ["Rgate", [0.1], [1], {}]]
+            if fam == "MeasureHomodyne":
+                mid = ["MeasureHomodyne", [v], [0], {"select": 0.2}]
+            elif fam == "Gaussian":
+                mid = ["Gaussian", [spec.enc_matrix(gauss_cov(ERR_V, 2.0)), spec.enc_vec([v, 0.5 * v])], [0], {}]
+            else:
+                mid = [fam, [v, 0.1] if fam == "BSgate" else ([v, 0.3] if fam in ("Dgate", "Sgate") else [v]), [0, 1] if fam == "BSgate" else [0], {"H": True} if dag else {}]
+            tw = [["Squeezed", [0.3, 0.4], [0], {}], ["Coherent", [0.5, 0.2], [1], {}], mid, ["Rgate", [0.1], [1], {}]]
             ref = spec.ref_run(2, tw, 2.0)
             mu, V, _ = sfrun.moments_of(res2.state, be, 2.0)
             d = max(float(np.max(np.abs(mu - ref.mu))), float(np.max(np.abs(V - ref.V))))
-            if d > 1e-7 * (1 + float(np.max(np.abs(ref.V)))):
+            if d > (2e-5 if fam == "MeasureHomodyne" else 1e-7) * (1 + float(np.max(np.abs(ref.V)))):
                 return ctx.fail("errors.program_changed_by_refused_run", "after a run refused with ParameterError the same program, run with all parameters bound, differs from its numeric twin by %.3g (%s%s)" % (d, fam, ".H" if dag else ""))
             return None
         except Exception as exc:  # pylint: disable=broad-except
             return ctx.fail("errors.%s.wrong_exception.%s" % (kind, type(exc).__name__), "expected ParameterError, got %s: %s" % (type(exc).__name__, str(exc)[:120]))
-    return ctx.fail("errors.%s.accepted" % kind, "the program ran (means %s) although %s" % (np.round(np.asarray(res.state.means()).real, 3).tolist() if hasattr(res.state, "means") else "?", {"unbound": "no parameter was bound", "partial": "parameter b was not bound", "unknown_name": "an unknown name was bound", "unknown_object": "a foreign FreeParameter was bound"}[kind]))
+    return ctx.fail("errors.%s.accepted" % kind, "the program ran (means %s) although %s" % (np.round(np.asarray(res.state.means()).real, 3).tolist() if hasattr(res.state, "means") else "?", {"unbound": "no parameter was bound", "partial": "a parameter was not bound", "unknown_name": "an unknown name was bound", "unknown_object": "a foreign FreeParameter was bound", "unknown_name_no_params": "a value was given for a parameter of a program that has no free parameters"}[kind]))
 
 
 # ---------------------------------------------------------------------------------------------
@@ -611,13 +1018,15 @@ def check_mm(ctx, case):
 
 SUBS = [
     Sub("substitution", check=check_sub, strategy=lambda ctx: sub_case(), examples={"quick": 500, "thorough": 5000}, shards={"quick": 3, "thorough": 16},
-        rule="expression trees over free parameters on every Gaussian family, all compile targets, optimize on/off, bind by name/object, before/after compile"),
-    Sub("measured", check=check_meas, strategy=lambda ctx: meas_case(), examples={"quick": 500, "thorough": 5000}, shards={"quick": 1, "thorough": 16},
-        rule="measure / use / re-prepare / re-measure histories with select: most recent outcome; use before measurement raises"),
+        rule="expression trees over free parameters on every Gaussian family, all compile targets (incl. passive), optimize on/off, bind by name/object, before/after compile, "
+             "re-binding of the same program, symbolic merge pairs, array-valued means, explicit defaults, hbar"),
+    Sub("measured", check=check_meas, strategy=lambda ctx: meas_case(), examples={"quick": 450, "thorough": 5000}, shards={"quick": 2, "thorough": 16},
+        rule="measure / use / re-prepare / re-measure histories with select (homodyne and heterodyne outcomes, symbolic angles, free + measured symbols, 12-mode "
+             "registers, 1..3 segments call by call or as a list, reset): most recent outcome; use before measurement raises"),
     Sub("measured_multi", check=check_mm, strategy=lambda ctx: mm_case(), examples={"quick": 120, "thorough": 1500}, shards={"quick": 1, "thorough": 8},
         rule="one MeasureFock / MeasureThreshold on 2..3 modes listed in any order (Fock inputs: deterministic outcomes), then gates using q[m].par: fock backend"),
-    Sub("errors", check=check_err, strategy=lambda ctx: err_case(), examples={"quick": 150, "thorough": 600}, shards={"quick": 1, "thorough": 2},
-        rule="unbound / partially bound / unknown parameters raise ParameterError"),
+    Sub("errors", check=check_err, strategy=lambda ctx: err_case(), examples={"quick": 200, "thorough": 600}, shards={"quick": 1, "thorough": 2},
+        rule="unbound / partially bound / unknown parameters (also inside a measurement angle or an array, also for a program without parameters) raise ParameterError"),
     Sub("isolation", check=check_iso, strategy=lambda ctx: iso_case(), examples={"quick": 20, "thorough": 100}, shards={"quick": 1, "thorough": 1},
         rule="two programs with the same parameter names do not influence each other"),
 ]
